@@ -729,7 +729,17 @@ pub fn plan_from_json(j: &Json) -> Result<Plan, String> {
 // Minimisation
 // ------------------------------------------------------------------------------------------------
 
+thread_local! {
+    /// Minimisation budget of the violation being minimised: (re-executions left, deadline).
+    static MIN_BUDGET: std::cell::Cell<(u32, Option<std::time::Instant>)> = const { std::cell::Cell::new((0, None)) };
+}
+
 fn same_failure(plan: &Plan, invariant: &str) -> Option<Fail> {
+    let (left, deadline) = MIN_BUDGET.with(|b| b.get());
+    if left == 0 || deadline.map(|d| std::time::Instant::now() > d).unwrap_or(false) {
+        return None; // budget spent: keep what we have
+    }
+    MIN_BUDGET.with(|b| b.set((left - 1, deadline)));
     match execute(plan, None, false) {
         Err(f) if f.invariant == invariant => Some(f),
         _ => None,
@@ -737,6 +747,9 @@ fn same_failure(plan: &Plan, invariant: &str) -> Option<Fail> {
 }
 
 pub fn minimise(plan: &Plan, fail: &Fail) -> (Plan, Fail) {
+    // bounded: at most 800 re-executions and 5 s per violation (a change that makes every call
+    // slow must not turn minimisation into the bottleneck)
+    MIN_BUDGET.with(|b| b.set((800, Some(std::time::Instant::now() + std::time::Duration::from_secs(5)))));
     let inv = fail.invariant;
     let mut best = plan.clone();
     let mut best_fail = fail.clone();
@@ -943,6 +956,7 @@ pub fn one_run(seed: u64, run: u64, stats: &mut Stats) {
                 ),
                 run,
                 replay: replay_doc("C17", seed, run, &mp, &mf),
+                replay_full: Some(replay_doc("C17", seed, run, &plan, &f)),
             });
         }
     }
